@@ -75,6 +75,10 @@ type profile struct {
 	lag                                                               bool // keep one follower cut off for long stretches (forces MsgSnap after compaction)
 	paged                                                             bool // MaxSizePerMsg = 0: at most one entry per MsgApp (acks of old-term indexes, partial appends)
 	member                                                            int  // Stage D: weight of add/remove/promote events; such schedules are checked by the safety predicates only
+	lazy                                                              bool // Stage D only: an event handles ONE Ready/Advance cycle with probability 1/2 and leaves the rest pending (the application's
+	// ticks and steps interleave with its apply pages, as raftexample's select loop does); never used for lock-step profiles
+	applyPaged                                                        bool // Config.MaxCommittedSizePerReady = 1 byte: committed entries are handed to the application one per Ready (replication itself unpaged)
+	grow                                                              bool // Stage D only: the cluster starts with node 1 as its only voter and grows by AddNode (the usual way a cluster is built)
 	prevote                                                           bool // Config.PreVote (+CheckQuorum): library features raftexample leaves off; outside the model, safety predicates only
 }
 
@@ -88,6 +92,8 @@ var profiles = []profile{
 	{name: "paged-partition", wTick: 25, wDeliver: 50, wDrop: 3, wPropose: 12, wCampaign: 3, wCrash: 2, wCompact: 2, pDup: 0.1, partition: 35, pHeal: 0.4, paged: true},
 	{name: "member", wTick: 22, wDeliver: 55, wDrop: 3, wPropose: 8, wCampaign: 3, wCrash: 2, wCompact: 2, pDup: 0.1, member: 6},
 	{name: "member-partition", wTick: 24, wDeliver: 50, wDrop: 4, wPropose: 8, wCampaign: 3, wCrash: 2, wCompact: 2, pDup: 0.15, partition: 40, pHeal: 0.4, member: 6},
+	{name: "member-paged", wTick: 15, wDeliver: 70, wDrop: 1, wPropose: 12, wCampaign: 2, wCrash: 4, wCompact: 0, pDup: 0.05, applyPaged: true, member: 6, lazy: true, grow: true},
+	{name: "member-paged-partition", wTick: 18, wDeliver: 62, wDrop: 2, wPropose: 12, wCampaign: 3, wCrash: 4, wCompact: 0, pDup: 0.1, partition: 40, pHeal: 0.4, applyPaged: true, member: 6, lazy: true, grow: true},
 	{name: "reorder", wTick: 12, wDeliver: 40, wDrop: 2, wPropose: 10, wCampaign: 5, wCrash: 2, wCompact: 2, pDup: 0.5},
 	{name: "prevote-reorder", wTick: 14, wDeliver: 38, wDrop: 3, wPropose: 8, wCampaign: 10, wCrash: 2, wCompact: 1, pDup: 0.5, prevote: true},
 	{name: "prevote-partition", wTick: 25, wDeliver: 45, wDrop: 4, wPropose: 8, wCampaign: 8, wCrash: 2, wCompact: 1, pDup: 0.3, partition: 30, pHeal: 0.4, prevote: true},
@@ -136,6 +142,9 @@ func (s *sim) newRawNode(nd *simNode) *raft.RawNode {
 	if s.prof.paged {
 		c.MaxSizePerMsg = 0 // "0 for at most one entry per message"; every other setting stays raftexample's
 	}
+	if s.prof.applyPaged {
+		c.MaxCommittedSizePerReady = 1
+	}
 	if s.prof.prevote {
 		c.PreVote = true // the library's pre-vote phase (raftexample leaves it off): delayed / duplicated pre-vote responses
 	}
@@ -159,6 +168,9 @@ func newSim(n int, seed int64, prof profile, w *bufio.Writer) *sim {
 	voters := s.ids
 	if prof.member > 0 && n > 3 {
 		voters = s.ids[:3] // Stage D: the other nodes start outside the configuration and are added later
+	}
+	if prof.grow {
+		voters = s.ids[:1]
 	}
 	for i := 0; i < n; i++ {
 		ms := raft.NewMemoryStorage()
@@ -415,6 +427,9 @@ func (s *sim) drain(nd *simNode) (out []pb.Message, selfAcks int) {
 			selfAcks++
 		}
 		nd.rn.Advance(rd)
+		if s.prof.lazy && s.rng.Intn(2) == 0 {
+			break
+		}
 	}
 	return out, selfAcks
 }
@@ -741,6 +756,12 @@ func (s *sim) doRestart(i int) {
 	s.event("restart", i, func() []string {
 		nd.rn = s.newRawNode(nd) // term, vote, commit from the HardState; log from the storage; follower, no leader
 		nd.down = false
+		if s.prof.lazy {
+			// a commit index that was only in memory (its Ready still pending when the node crashed) is legitimately lost
+			if hs, _, err := nd.ms.InitialState(); err == nil && hs.Commit < nd.hCommit {
+				nd.hCommit = hs.Commit
+			}
+		}
 		return []string{"restart"}
 	})
 }
@@ -780,7 +801,11 @@ func (s *sim) doConfChange(i int) {
 		}
 	}
 	var cc pb.ConfChange
-	switch r := s.rng.Intn(10); {
+	r := s.rng.Intn(10)
+	if s.prof.grow && r >= 4 && r < 8 {
+		r = 0 // mostly additions
+	}
+	switch {
 	case r < 4:
 		cc = pb.ConfChange{Type: pb.ConfChangeAddNode, NodeID: x} // also promotes a learner
 	case r < 6 && !isVoter:
@@ -874,6 +899,15 @@ func (s *sim) run(events int) {
 			if s.nodes[i].down || s.rng.Float64() < 0.5 {
 				s.stats["restarts"]++
 				s.doRestart(i) // crash (if it was up) and restart from the persisted state
+				if s.prof.lazy && !s.bad && s.rng.Intn(2) == 0 {
+					// a restarted node whose election timer fires while it is still replaying its log (pages pending)
+					for k := s.rng.Intn(3); k > 0 && !s.bad; k-- {
+						s.doTick(i)
+					}
+					if !s.bad {
+						s.doCampaign(i)
+					}
+				}
 			} else {
 				s.nodes[i].down = true // crash now, restart later; nothing reaches it meanwhile
 				s.stats["crashes"]++
